@@ -200,6 +200,9 @@ Qed.
 (* ------------------------------------------------------------------ *)
 (* completeness in strict mode: every RFC 9112 request line is accepted *)
 (* ------------------------------------------------------------------ *)
+Lemma fits_app_r a b : fits (a ++ b) -> fits b.
+Proof. unfold fits. rewrite lenN_app. lia. Qed.
+
 Lemma tok_skipOneTrailing_app set x c : set c = true -> tok_skipOneTrailing set (x ++ [c]) = (true, x).
 Proof.
   intros Hc. unfold tok_skipOneTrailing, last_byte. rewrite rev_app_distr. cbn [rev app]. rewrite Hc.
@@ -363,8 +366,11 @@ Proof.
   (* version *)
   replace (t ++ [32] ++ http_slash ++ [d1; 46; d2]) with ((t ++ [32]) ++ http_slash ++ [d1; 46; d2])
     by (rewrite <- !app_assoc; reflexivity).
-  rewrite parse_version_complete; [|exact Hd1|exact Hd2|].
-  2:{ unfold fits in *. rewrite Hline in Hf. rewrite !lenN_app in *. cbn [lenN] in *. lia. }
+  assert (Hfv : fits ((t ++ [32]) ++ http_slash ++ [d1; 46; d2])).
+  { assert (Hl2 : line = (m ++ [32]) ++ (((t ++ [32]) ++ http_slash ++ [d1; 46; d2]) ++ [13]))
+      by (rewrite Hline, <- !app_assoc; reflexivity).
+    rewrite Hl2 in Hf. apply fits_app_r in Hf. apply fits_app_l in Hf. exact Hf. }
+  rewrite parse_version_complete; [|exact Hd1|exact Hd2|exact Hfv].
   cbn [r_major set_proto].
   assert (d1 - 48 =? 0 = false) as -> by (clear - R1 Hnz; lia).
   (* delimiter before the version *)
@@ -374,7 +380,7 @@ Proof.
   cbn [lenN]. rewrite skip_delimiter_1.
   (* target *)
   assert (Hft : fits t).
-  { unfold fits in *. rewrite Hline in Hf. rewrite !lenN_app in Hf. lia. }
+  { apply fits_app_l in Hfv. apply fits_app_l in Hfv. exact Hfv. }
   unfold parse_uri. rewrite tok_prefix_eq_spec. unfold prefix_spec.
   rewrite takeN_all by exact Hft.
   rewrite (forallb_span (target_chars false) t Htall). cbn [fst].
